@@ -64,7 +64,9 @@ Oracle boundaries (accepted readings, documented where they are applied):
 from __future__ import annotations
 
 import json
+import os
 import sys
+import tempfile
 
 import numpy as np
 
@@ -76,6 +78,7 @@ BUDGETS = [1, 2, 3, 5, 12]
 PROBLEMS = ["ineq", "quad", "eq", "nan", "nan_ineq", "raise", "linear", "mixed", "milp", "biobj"]
 DEVIATION_PROBLEMS = ["ineq", "quad", "linear", "milp", "biobj", "mixed"]  # quick: first two accepted of these
 SUB_MAX_ITER = 4  # budget of one augmented-Lagrangian sub-optimization
+SCRATCH = None  # ctx.scratch (set by run / replay; inherited by the forked workers)
 CASE_TIMEOUT = 300  # wall seconds, backstop only: runaway runs are stopped by the evaluation cap of the probe
 
 # value alphabets (rotated by VERIF_SEED; the enumerated structure never changes)
@@ -163,6 +166,7 @@ class Probe:
         self.raise_at = raise_at  # the constraint raises at its k-th distinct (non-probe) point
         self.g_points = []
         self.raised = []
+        self.raise_log = None  # file collecting the failing points (hex) of every process
         self.cap = None  # maximum number of real calls in the current execution
         self.n_real = 0
         self.runaway = False
@@ -189,6 +193,9 @@ class Probe:
         if self.g_points.index(key) == self.raise_at - 1:
             e = UserBoom("boom-c03: the user's constraint fails at this point")
             self.raised.append(e)
+            if self.raise_log:  # the worker processes of a parallel DOE have their own copy of this probe
+                with open(self.raise_log, "a") as f:
+                    f.write(key.hex() + "\n")
             raise e
 
 
@@ -680,18 +687,16 @@ def judge(obs, run, pname, info, history="single"):
             if not any(same(srow, e) for e in expected) and not any(same(srow, o) for o in old):
                 expected.append(srow)
         new = obs["new_keys"]
-        failing = None
-        if pname == "raise" and obs.get("n_raised", 0):
-            failing = obs.get("failing_point")
+        failing_pts = obs.get("failing_points", [])
+
+        def is_failing(pt):
+            return any(same(np.asarray(pt, dtype=float), f_) for f_ in failing_pts)
+
         prefix_allowed = (not st["reset"] and obs["counter_before"] > 0) or st["stop"] == "time"
         if use_db:
-            exp = [e for e in expected if failing is None or not np.array_equal(e, failing)]
-            got = [k for k in new if failing is None or not np.array_equal(k, failing)]
-            # D3 in a parallel run: the failing sample is only known to the worker process; one sample may be absent
-            lost = 1 if (pname == "raise" and not serial and len(got) == len(exp) - 1) else 0
-            if lost:
-                j = next((i for i, (a, b) in enumerate(zip(got, exp)) if not same(a, b)), len(got))
-                exp = exp[:j] + exp[j + 1:]
+            # D3: the entry of a failing sample may be absent (parallel run) or partial (serial run); all the others are there
+            exp = [e for e in expected if not is_failing(e)]
+            got = [k for k in new if not is_failing(k)]
             ok = len(got) <= len(exp) and all(same(a, b) for a, b in zip(got, exp))
             if ok and len(got) < len(exp) and not prefix_allowed:
                 ok = False
@@ -699,14 +704,20 @@ def judge(obs, run, pname, info, history="single"):
                 v(
                     "doe-keys-are-samples",
                     f"new database keys {[k.tolist() for k in new][:6]} vs distinct generated samples not yet recorded {[e.tolist() for e in expected][:6]}"
-                    + (f" (failing sample {failing.tolist()} set aside)" if failing is not None else ""),
+                    + (f" (failing samples {[f_.tolist() for f_ in failing_pts]} set aside)" if failing_pts else ""),
                 )
             else:
                 stopped = prefix_allowed and stop_class(obs) in ("time", "max-iter")
-                for j_, (k, entry) in enumerate(zip(obs["new_keys"], obs["new_entries"])):
-                    if failing is not None and np.array_equal(k, failing):
+                entries = list(zip(obs["new_keys"], obs["new_entries"]))
+                if stopped and not serial:
+                    # a parallel DOE creates the (empty) entries of all its samples first and removes the empty ones at
+                    # the end; a stop skips the clean-up: empty entries of never evaluated samples are tolerated (counted)
+                    obs["empty_entries_left"] = sum(1 for _, e_ in entries if not e_)
+                    entries = [(k_, e_) for k_, e_ in entries if e_]
+                for j_, (k, entry) in enumerate(entries):
+                    if is_failing(k):
                         continue
-                    if stopped and j_ == len(obs["new_keys"]) - 1:
+                    if stopped and j_ == len(entries) - 1:
                         continue  # the criterion fires at the first store of an entry: the last one may be partial
                     missing = [nm for nm in info["names"] if nm not in entry]
                     if missing:
@@ -733,7 +744,7 @@ def judge(obs, run, pname, info, history="single"):
                 want = 1 if use_db else sum(1 for r in rows if np.array_equal(r, pt))
                 for nm in info["names"]:
                     got_n = obs["func_mult"].get((nm, np.array(pt, dtype=float).tobytes()), 0)
-                    if failing is not None and np.array_equal(pt, failing):
+                    if is_failing(pt):
                         continue
                     if got_n != want:
                         v("doe-evaluated-once", f"original function {nm} was called {got_n} time(s) at sample {np.array(pt).tolist()} (expected {want})")
@@ -745,9 +756,14 @@ def judge(obs, run, pname, info, history="single"):
 
 
 def observe_raise(obs, probe):
-    obs["n_raised"] = len(probe.raised)
-    if probe.raise_at and len(probe.g_points) >= probe.raise_at:
-        obs["failing_point"] = np.frombuffer(probe.g_points[probe.raise_at - 1], dtype=float).copy()
+    """The points at which the user's constraint raised during the execution (in any process)."""
+    pts = []
+    if probe.raise_log and os.path.exists(probe.raise_log):
+        with open(probe.raise_log) as f:
+            for line in f.read().split():
+                pts.append(np.frombuffer(bytes.fromhex(line), dtype=float).copy())
+        os.remove(probe.raise_log)
+    obs["failing_points"] = pts
 
 
 def run_history(case):
@@ -756,11 +772,13 @@ def run_history(case):
     pname = case["problem"]
     runs = case["runs"]
     problem, probe, info = build_problem(pname, T, runs[0]["settings"]["diff"])
+    if probe.raise_at:
+        fd, probe.raise_log = tempfile.mkstemp(prefix="c03_raised_", dir=SCRATCH or None)
+        os.close(fd)
     out = []
     history = "single" if len(runs) == 1 else "second-run"
     for i, run in enumerate(runs):
         install_clock()
-        probe.raised_before = len(probe.raised)
         obs = execute_once(problem, probe, info, run, T, pname)
         if obs["status"] != "ran":
             out.append((run, obs, []))
@@ -770,6 +788,8 @@ def run_history(case):
         out.append((run, obs, bad))
         if obs.get("exception"):
             break
+    if probe.raise_log and os.path.exists(probe.raise_log):
+        os.remove(probe.raise_log)
     return out
 
 
@@ -921,6 +941,8 @@ def _check_case(case, tally):
             tally.count("no-reset:" + ("within-remaining-budget" if n_new <= remaining else "beyond-remaining-budget"))
         if i > 0 and cls == "kkt" and run["settings"]["stop"] != "kkt":
             tally.count("second-run-stopped-by-the-kkt-listener-of-the-first-run")
+        if obs.get("empty_entries_left"):
+            tally.count("parallel-doe-stopped-by-max_time-leaves-empty-entries")
         if cls == "no-message":
             tally.sets.setdefault("no-message", set()).add(algo)
         if obs.get("library_error"):
@@ -963,6 +985,8 @@ def relevant(kind, algo, pname, st, kkt_algos):
 
 
 def run(ctx):
+    global SCRATCH
+    SCRATCH = ctx.scratch
     tally = ctx.tally
     table = ctx.seed % len(TABLES)
     opt_algos, doe_algos = algo_lists()
@@ -1098,6 +1122,8 @@ def run(ctx):
 
 
 def replay(case, ctx):
+    global SCRATCH
+    SCRATCH = getattr(ctx, "scratch", None)
     results = run_history(case)
     out = {"case": case, "executions": [], "violations": []}
     for run_, obs, bad in results:
